@@ -356,10 +356,11 @@ def State.idle (s : State) : Bool :=
 /-! ### Spec — the property as monitors over the observation log
 
 `mr i` / `maxD i` are the configured `max_retries` / `max_retry_delay` of transport `i`, `n` the number of
-transports.  `Mon` is pure bookkeeping over what has been observed so far (attempts per transport since its last
+transports.  `Core` is pure bookkeeping over what has been observed so far (attempts per transport since its last
 successful join, transports whose error was classified fatal, whether stop() was called, …); every clause of the
 property is a check `Chk` of the next observation against that bookkeeping plus a check `Fin` at the end of the log.
-`resetOnJoin = true` is the property as stated ("since that transport's last successful join"). -/
+`resetOnJoin = true` is the property as stated ("since that transport's last successful join").
+Listener bubbling has its own small monitor `Fire`. -/
 namespace Spec
 
 structure Conf where
@@ -369,7 +370,7 @@ structure Conf where
   resetOnJoin : Bool
   listeners : List Ev
 
-structure Mon where
+structure Core where
   cnt : Nat → Nat := fun _ => 0        -- attempts since the last join (or ever)
   ever : Nat → Nat := fun _ => 0       -- attempts ever
   failed : Nat → Bool := fun _ => false
@@ -379,66 +380,66 @@ structure Mon where
   done : Option Bool := none
   pendingClean : Bool := false         -- a session ended normally and start()'s future is still open
   pendingRaise : Bool := false         -- main raised and start()'s future is still open
-  lastFire : Option (Ev × Nat) := none -- the latest session firing …
-  callsSeen : Nat := 0                 -- … and the component calls seen since
 
 def upd (f : Nat → α) (i : Nat) (v : α) : Nat → α := fun j => if j = i then v else f j
 
-def Mon.feed (c : Conf) (m : Mon) : Obs → Mon
+def Core.feed (c : Conf) (k : Core) : Obs → Core
   | .att i _ _ =>
-    { m with cnt := upd m.cnt i (m.cnt i + 1), ever := upd m.ever i (m.ever i + 1), last := some i,
+    { k with cnt := upd k.cnt i (k.cnt i + 1), ever := upd k.ever i (k.ever i + 1), last := some i,
              started := true, pendingRaise := false, pendingClean := false }
-  | .join i => if c.resetOnJoin then { m with cnt := upd m.cnt i 0 } else m
-  | .fatal i => { m with failed := upd m.failed i true }
-  | .mainRaised _ => { m with pendingRaise := m.done.isNone }
-  | .cleanEnd _ => { m with pendingClean := true }
-  | .stop => { m with stopped := true }
-  | .done ok => { m with done := some ok, pendingClean := false, pendingRaise := false }
-  | .sfire ev n => { m with lastFire := some (ev, n), callsSeen := 0 }
-  | .call _ _ => { m with callsSeen := m.callsSeen + 1 }
-  | .fail _ | .lateDone _ | .sess _ _ => m
+  | .join i => if c.resetOnJoin then { k with cnt := upd k.cnt i 0 } else k
+  | .fatal i => { k with failed := upd k.failed i true }
+  | .mainRaised _ => { k with pendingRaise := k.done.isNone }
+  | .cleanEnd _ => { k with pendingClean := true }
+  | .stop => { k with stopped := true }
+  | .done ok => { k with done := some ok, pendingClean := false, pendingRaise := false }
+  | .sfire _ _ | .call _ _ | .fail _ | .lateDone _ | .sess _ _ => k
 
-def feedAll (c : Conf) (m : Mon) (log : List Obs) : Mon := log.foldl (Mon.feed c) m
+def feedAll (c : Conf) (k : Core) (log : List Obs) : Core := log.foldl (Core.feed c) k
 
-abbrev Chk := Conf → Mon → Obs → Bool
-abbrev Fin := Conf → Mon → Bool → Bool
+abbrev Chk := Conf → Core → Obs → Bool
+abbrev Fin := Conf → Core → Bool → Bool
 
 /-- all checks along a log, then the final check (`idle`: nothing scheduled / in flight at the end) -/
-def specAll (chk : Chk) (fin : Fin) (c : Conf) (m : Mon) (idle : Bool) : List Obs → Bool
-  | [] => fin c m idle
-  | o :: r => chk c m o && specAll chk fin c (m.feed c o) idle r
+def specAll (chk : Chk) (fin : Fin) (c : Conf) (k : Core) (idle : Bool) : List Obs → Bool
+  | [] => fin c k idle
+  | o :: r => chk c k o && specAll chk fin c (k.feed c o) idle r
 
 def finTrue : Fin := fun _ _ _ => true
 
-def budgetOk (c : Conf) (m : Mon) (i : Nat) : Bool :=
-  c.mr i == -1 || decide ((m.cnt i : Int) < c.mr i + 1)
+def budgetOk (c : Conf) (k : Core) (i : Nat) : Bool :=
+  c.mr i == -1 || decide ((k.cnt i : Int) < c.mr i + 1)
 
-def elig (c : Conf) (m : Mon) (i : Nat) : Bool := !(m.failed i) && budgetOk c m i
+def elig (c : Conf) (k : Core) (i : Nat) : Bool := !(k.failed i) && budgetOk c k i
 
-def anyElig (c : Conf) (m : Mon) : Bool := (List.range c.n).any (elig c m)
+def anyElig (c : Conf) (k : Core) : Bool := (List.range c.n).any (elig c k)
 
 /-- first eligible index in cyclic order starting at `start` -/
-def firstElig (c : Conf) (m : Mon) (start : Nat) : Option Nat :=
-  ((List.range c.n).map (fun k => (start + k) % c.n)).find? (elig c m)
+def firstElig (c : Conf) (k : Core) (start : Nat) : Option Nat :=
+  ((List.range c.n).map (fun j => (start + j) % c.n)).find? (elig c k)
+
+def startOf : Option Nat → Nat
+  | none => 0
+  | some l => l + 1
 
 /-- at most max_retries+1 attempts per transport since its last successful join (−1: unbounded) -/
 def chkBudget : Chk
-  | c, m, .att i _ _ => budgetOk c m i
+  | c, k, .att i _ _ => budgetOk c k i
   | _, _, _ => true
 
 /-- no attempt on a transport after an error classified fatal -/
 def chkFatal : Chk
-  | _, m, .att i _ _ => !(m.failed i)
+  | _, k, .att i _ _ => !(k.failed i)
   | _, _, _ => true
 
 /-- the attempted transport is the first eligible one after the previously attempted, in cyclic order -/
 def chkRoundRobin : Chk
-  | c, m, .att i _ _ => firstElig c m (match m.last with | none => 0 | some l => l + 1) == some i
+  | c, k, .att i _ _ => firstElig c k (startOf k.last) == some i
   | _, _, _ => true
 
 /-- a transport is attempted for the first time without delay -/
 def chkFirst : Chk
-  | _, m, .att i w _ => m.ever i != 0 || w.isZero
+  | _, k, .att i w _ => k.ever i != 0 || w.isZero
   | _, _, _ => true
 
 /-- never waits longer than the configured maximum -/
@@ -448,45 +449,31 @@ def chkDelay : Chk
 
 /-- the loop gives up only when no transport has attempts left … -/
 def chkGiveUp : Chk
-  | c, m, .done false => m.pendingRaise || !(anyElig c m)
+  | c, k, .done false => k.pendingRaise || !(anyElig c k)
   | _, _, _ => true
 
 /-- … and is never idle with start()'s future open -/
-def finProgress : Fin := fun _ m idle => !(idle && m.started && m.done.isNone)
+def finProgress : Fin := fun _ k idle => !(idle && k.started && k.done.isNone)
 
 /-- start()'s future completes at most once -/
 def chkDoneOnce : Chk
-  | _, m, .done _ => m.done.isNone
+  | _, k, .done _ => k.done.isNone
   | _, _, _ => true
 
 /-- polarity: success only after a normal leave / main returned / stop(); error only after main raised or
 exhaustion; a normal end or a failing main must complete the future before anything else is attempted -/
 def chkPolarity : Chk
-  | _, m, .done true => m.stopped || m.pendingClean
-  | c, m, .done false => m.pendingRaise || !(anyElig c m)
-  | _, m, .att _ _ _ => !(m.pendingRaise || (m.pendingClean && m.done.isNone))
+  | _, k, .done true => k.stopped || k.pendingClean
+  | c, k, .done false => k.pendingRaise || !(anyElig c k)
+  | _, k, .att _ _ _ => !(k.pendingRaise || (k.pendingClean && k.done.isNone))
   | _, _, _ => true
 
-def finPolarity : Fin := fun _ m _ => !((m.pendingClean || m.pendingRaise) && m.done.isNone)
+def finPolarity : Fin := fun _ k _ => !((k.pendingClean || k.pendingRaise) && k.done.isNone)
 
 /-- no connection attempt after stop() -/
 def chkStop : Chk
-  | _, m, .att _ _ _ => !m.stopped
+  | _, k, .att _ _ _ => !k.stopped
   | _, _, _ => true
-
-def bubbleClosed (c : Conf) (m : Mon) : Bool :=
-  match m.lastFire with
-  | none => true
-  | some (ev, _) => !(c.listeners.contains ev) || m.callsSeen == 1
-
-/-- every session firing reaches the component's listener for that event exactly once, before the session fires
-again (the session's own handlers run first and may complete futures in between), and nothing else is called -/
-def chkBubble : Chk
-  | c, m, .call ev n => m.lastFire == some (ev, n) && m.callsSeen == 0 && c.listeners.contains ev
-  | c, m, .sfire _ _ => bubbleClosed c m
-  | _, _, _ => true
-
-def finBubble : Fin := fun c m _ => bubbleClosed c m
 
 def budgetSpec (c : Conf) (log : List Obs) : Bool := specAll chkBudget finTrue c {} false log
 def fatalSpec (c : Conf) (log : List Obs) : Bool := specAll chkFatal finTrue c {} false log
@@ -497,7 +484,35 @@ def progressSpec (c : Conf) (log : List Obs) (idle : Bool) : Bool := specAll chk
 def doneOnceSpec (c : Conf) (log : List Obs) : Bool := specAll chkDoneOnce finTrue c {} false log
 def polaritySpec (c : Conf) (log : List Obs) : Bool := specAll chkPolarity finPolarity c {} false log
 def stopSpec (c : Conf) (log : List Obs) : Bool := specAll chkStop finTrue c {} false log
-def bubbleSpec (c : Conf) (log : List Obs) : Bool := specAll chkBubble finBubble c {} false log
+
+/-! listener bubbling: every session firing reaches the component's listener for that event exactly once before
+the session fires again (the session's own handlers run first and may complete futures in between), and nothing
+else is called -/
+
+structure Fire where
+  lastFire : Option (Ev × Nat) := none   -- the latest session firing …
+  callsSeen : Nat := 0                    -- … and the component calls seen since
+
+def Fire.feed (f : Fire) : Obs → Fire
+  | .sfire ev n => { lastFire := some (ev, n), callsSeen := 0 }
+  | .call _ _ => { f with callsSeen := f.callsSeen + 1 }
+  | _ => f
+
+def bubbleClosed (ls : List Ev) (f : Fire) : Bool :=
+  match f.lastFire with
+  | none => true
+  | some (ev, _) => if ls.contains ev then f.callsSeen == 1 else f.callsSeen == 0
+
+def chkBubble (ls : List Ev) (f : Fire) : Obs → Bool
+  | .call ev n => f.lastFire == some (ev, n) && f.callsSeen == 0 && ls.contains ev
+  | .sfire _ _ => bubbleClosed ls f
+  | _ => true
+
+def bubbleAll (ls : List Ev) (f : Fire) : List Obs → Bool
+  | [] => bubbleClosed ls f
+  | o :: r => chkBubble ls f o && bubbleAll ls (f.feed o) r
+
+def bubbleSpec (c : Conf) (log : List Obs) : Bool := bubbleAll c.listeners {} log
 
 end Spec
 
